@@ -16,7 +16,7 @@ LEVEL = "exploration"
 RULE = ("random lattice arrays (multiples of 1/8, zeros, negatives) for the ten arithmetic commands, every int64/float64 assignment "
         "for n<=4 inputs (sampled for 5), input orders permuted, weights int/float/mixed; plus single-fault cases (shape, weight count, "
         "empty list); distinct by (command, n, dtype assignment, mask classes, param kinds, fault kind)")
-REQUIRED_COUNTERS = ["ref_postconditions", "order_checks", "fault_checks", "zero_divisor_cells", "zero_weight_sum_cases", "repeated_field_cases", "later_command_checks"]
+REQUIRED_COUNTERS = ["ref_postconditions", "order_checks", "fault_checks", "zero_divisor_cells", "zero_weight_sum_cases", "repeated_field_cases", "later_command_checks", "fault_reevaluations"]
 ASSUMPTIONS = ["reference models in mpv/ref.py", "int64 overflow and NaN/inf inputs are never generated", "result dtype is not judged"]
 
 COMMUTATIVE = ("Sum", "Multiply", "Minimum", "Maximum", "Mean", "WeightedSum", "WeightedMean")
@@ -235,8 +235,20 @@ def _run_fault(ctx, case, cmd, inputs, params):
     fault = case["fault"]
     ctx.feature(("fault", cmd, fault, len(inputs)))
     ctx.count("fault_checks")
-    out, _ = arr.run_cmd(cmd, inputs, params) if inputs or cmd not in cmdgen.AB else (None, None)
+    out, fprog = arr.run_cmd(cmd, inputs, params) if inputs or cmd not in cmdgen.AB else (None, None)
     want = FAULT_ERR[fault]
+    if not out.ok and fprog is not None and "Res" in fprog.commands:
+        # asked again (by a later reader of the same result, or by another run of the program) the answer is the same error
+        for again in ("result", "run"):
+            try:
+                fprog.commands["Res"].result if again == "result" else fprog.run()
+                e2 = None
+            except Exception as e:
+                e2 = e
+            ctx.count("fault_reevaluations")
+            if type(e2).__name__ != out.err:
+                ctx.fail("%s:fault-%s:asked-again-gives-%s" % (cmd, fault, type(e2).__name__ if e2 is not None else "a-result"), {"first": out.err, "again_through": again, "error": repr(e2)[:200]})
+                return
     if out.ok:
         ctx.fail("%s:fault-%s-accepted" % (cmd, fault), {"params": params, "shapes": [s["shape"] for s in case["inputs"]]})
     elif out.err != want:
